@@ -25,6 +25,8 @@ impl KFold {
         let mut indices: Vec<usize> = (0..n_samples).collect();
         if self.shuffle {
             indices.shuffle(&mut thread_rng());
+            #[cfg(feature = "verif-hooks")]
+            crate::verif_hooks::reshuffle(crate::verif_hooks::Draw::KFoldShuffle, &mut indices);
         }
         //  return a new array of given shape n_split, filled with each element of n_samples divided by n_splits.
         let mut fold_sizes = vec![n_samples / self.n_splits; self.n_splits];
